@@ -1,6 +1,7 @@
 #![allow(dead_code, unused_mut, clippy::all)]
 mod c01;
 mod c02;
+mod c03;
 mod c04;
 mod corpus;
 mod dbg;
@@ -25,14 +26,13 @@ fn main() {
     outcome::install_panic_hook();
     // the libraries' generated dispatch functions have very large stack frames in unoptimised builds
     let worker = args.iter().any(|a| a == "--worker");
-    if !worker {
-        rayon::ThreadPoolBuilder::new().stack_size(64 << 20).build_global().expect("rayon pool");
-    }
     let code = match id {
         "C01" if worker => c01::worker(tier),
         "C01" => c01::run(tier, replay),
         "C02" if worker => c02::worker(tier),
         "C02" => c02::run(tier, replay),
+        "C03" if worker => c03::worker(tier),
+        "C03" => c03::run(tier, replay),
         "C04" if worker => c04::worker(tier),
         "C04" => c04::run(tier, replay),
         _ => {
